@@ -101,6 +101,11 @@ type call struct {
 	wantErr    stanza.Error
 	done       chan result
 	finished   bool
+	// leave on a channel that is not (or no longer) an occupant: clean-up after
+	// a refused join, a second leave, a leave after a kick.  The presence is
+	// sent all the same and only an error reply (or the context) ends the call:
+	// the room has nobody to report as departed.
+	notJoined bool
 }
 
 type env struct {
@@ -639,6 +644,11 @@ func (e *env) leave(r *roomSt, status string, explicit bool) bool {
 	}
 	e.poll()
 	c := &call{kind: "leave", how: "leave", room: r, req: r.me}
+	if !r.joined {
+		c.notJoined = true
+		c.req = r.chAddr
+		e.class("leave-on-a-channel-that-is-not-joined")
+	}
 	if explicit {
 		c.how = "leavepresence"
 		c.explicitID = e.nextID("hx-")
@@ -1136,6 +1146,7 @@ type inviteSpec struct {
 	thread   string
 	typeAttr string // "", "normal"
 	layout   int
+	idKind   int // 0 a fresh message id, 1 the same id for all such invitations, 2 no id
 }
 
 // invite feeds one mediated invitation.
@@ -1182,7 +1193,22 @@ func (e *env) invite(s inviteSpec) bool {
 	default:
 		kids = []*xt.Node{body, legacy, x, other}
 	}
-	attrs := []xml.Attr{xt.A("from", s.from.String()), xt.A("to", localFull), xt.A("id", e.nextID("inv"))}
+	// (ids are only unique per sender, and a room may reuse one: an invitation
+	// with the id of an earlier one is an invitation all the same)
+	id := e.nextID("inv")
+	switch s.idKind {
+	case 1:
+		id = "invitation"
+	case 2:
+		id = ""
+	}
+	attrs := []xml.Attr{xt.A("from", s.from.String()), xt.A("to", localFull)}
+	if id != "" {
+		attrs = append(attrs, xt.A("id", id))
+	}
+	if s.idKind == 1 {
+		e.class("ev-invite-with-an-id-seen-before")
+	}
 	if s.typeAttr != "" {
 		attrs = append(attrs, xt.A("type", s.typeAttr))
 	}
@@ -1192,7 +1218,7 @@ func (e *env) invite(s inviteSpec) bool {
 	}
 	e.logf("room %s sends: mediated invitation to=%q inviter=%q reason=%q password=%q continue=%v thread=%q type=%q layout=%d",
 		s.from, s.to, s.inviter, s.reason, s.password, s.cont, s.thread, s.typeAttr, s.layout)
-	e.can("invite from=%s to=%q inviter=%q reason=%q pw=%q cont=%v thread=%q type=%q l=%d", s.from, s.to, s.inviter, s.reason, s.password, s.cont, s.thread, s.typeAttr, s.layout)
+	e.can("invite from=%s to=%q inviter=%q reason=%q pw=%q cont=%v thread=%q type=%q l=%d id=%d", s.from, s.to, s.inviter, s.reason, s.password, s.cont, s.thread, s.typeAttr, s.layout, s.idKind)
 	e.feed(xt.El(nsClient, "message", attrs, kids...))
 	e.wantInvites++
 	if !e.sync() {
